@@ -252,4 +252,10 @@ theorem C06_approp_spends_unspent (L : Ledger) (assets : Nat) (appr : Option Int
 theorem C06_registerAsset_refused (tx : Tx) (h : tx.kind = .registerAsset) : txSane tx = false := by
   simp [txSane, h]
 
+/-- a transaction with more than 65535 outputs passes no sanity check: the unspent index stores output
+    indexes as uint16, so output 65536 would be listed as a second index 0 -/
+theorem C06_wide_refused (tx : Tx) (h : 65535 < tx.outs.length) : txSane tx = false := by
+  have : ¬ tx.outs.length ≤ 65535 := by omega
+  simp [txSane, this]
+
 end ElaVerif.C06
